@@ -50,12 +50,52 @@ def cells(tier, seed):
             out.append({"k": "bind", "form": form, "n": n})
     for first in range(len(IMPORTS)):
         out.append({"k": "graphs", "first": first, "n": b["import_statements"]})
+    for first in range(len(RE_FIRST)):
+        out.append({"k": "rerequire", "first": first})
     return out
+
+
+# a module required again after its state changed / after an importer wrote to its module object
+RE_FIRST = ["require state", "require state as s1", "require uses_state; require state"]
+RE_ACTS = ["1", "S->bump()", "S->bump(); S->bump(); S->bump()", "S->counter = -1", "S->extra = 5",
+           "S->bump(); S->extra = S->counter", "S->bump = fn() 77"]
+RE_SECOND = [("require state", "state"), ("require state as s2", "s2"), ("require state as s1", "s1")]
+
+
+def run_rerequire(ctx, cell):
+    ctx.reach("graphs")
+    it, log = modfix.new_session()
+    key = "C11:rerequire"
+    first = RE_FIRST[cell["first"]]
+    obj1 = "s1" if " as s1" in first else "state"
+    act = RE_ACTS[ctx.choice("act", len(RE_ACTS))].replace("S", obj1)
+    second, obj2 = RE_SECOND[ctx.choice("second", len(RE_SECOND))]
+    prog = [first, act, second]
+    detail = {"program": prog}
+    for st in prog:
+        o = guard(it.interpret, st, "imp")
+        if o.kind != "ok":
+            ctx.fail(key + ":step-failed:" + (o.hostname() or o.kind), dict(detail, step=st, exc=str(o.exc)))
+            return prog
+    cur = guard(it.interpret, obj2 + "->current()", "probe")
+    mem = guard(it.interpret, obj2 + "->counter", "probe")
+    names = sorted(it.environment.get(obj2, None).value.keys())
+    d2 = dict(detail, current=str(cur.value), member=str(mem.value), names=names, load_log=str(log))
+    ctx.check(cur.kind == "ok" and mem.kind == "ok" and cur.value == mem.value,
+              key + ":module-object-does-not-hold-the-modules-current-definitions", d2)
+    ctx.check(names == ["bump", "counter", "current"], key + ":module-object-exposes-other-names", d2)
+    b = guard(it.interpret, obj2 + "->bump()", "probe")
+    ctx.check(b.kind == "ok" and cur.kind == "ok" and b.value.value == cur.value.value + 1,
+              key + ":module-object-function-is-not-the-modules", dict(d2, bump=str(b.value)))
+    ctx.check([x.value for x in log.value].count("state") == 1, key + ":module-body-ran-more-than-once[state]", d2)
+    return [prog, names]
 
 
 def run(ctx, cell):
     if cell["k"] == "bind":
         return run_bind(ctx, cell)
+    if cell["k"] == "rerequire":
+        return run_rerequire(ctx, cell)
     return run_graphs(ctx, cell)
 
 
